@@ -81,6 +81,23 @@ prop("C20", True, "exploration",
      "The specification decides only the design half (the algorithm is linear); the implementation half is a measurement over model-derived families (about 700 (control state, unit, suffix) families + named and API-level ones), ratio threshold 9 (linear 4-6, quadratic 16). Claimed as exploration.",
      "runtime.MemStats (TotalAlloc, Mallocs) with the GC off on one goroutine; thresholds from measurement (DESIGN.md section 3); CPU work that allocates nothing is not measured.", "DESIGN.md section 4/C20")
 
+prop("C02", True, "model_checking",
+     "termination (<>done under WF) and cursor bounds of the spec's parser by TLC; robustness events (about 900 public calls per (input, configuration) under recover() + watchdog) validated by TLC against the action result' in {error} U AnyUrl",
+     "Design half exhaustive on the struct family. Implementation half is a systematic exploration: TLC-enumerated nasty inputs (raw invalid bytes at every position, NUL, delimiters) and pumped long inputs x configurations rotating through every boolean option, every pair (thorough: all 2^10 subsets), valued options, mixtures and the four profiles x a fixed menu of parse / resolve / clone / setter / SearchParams calls.",
+     TB + "; recover() and a 20 s watchdog in the driver. BasicParser misuse (arbitrary override, nil arguments) is out of the property's quantifier.", "DESIGN.md section 4/C02")
+prop("C16", True, "model_checking",
+     "spec/Options.tla: each option as [trigger, option record / setter composition / postcondition]; trigger sufficiency checked by TLC on the spec; (input x option) composite events from the real code validated by TLC",
+     "Neutrality outside the trigger for the six relaxing options (alone and combined), exact prediction for special schemes, the five replaced percent-encode sets, remove-user-info/port/fragment (standard's setters), default-scheme, skip-equals (list machine), no-option parsers/profiles (also ParseRef with an empty base); postconditions for collapse, single-percent, sort-query.",
+     TB, "DESIGN.md section 4/C16")
+prop("C17", True, "model_checking",
+     "fixed-point law evaluated by TLC on outputs observed from the real profiles; inputs: all strings of the parse families (option-composed profiles) and every spelling of the TLC-enumerated ordinary-web-URL grammar spec/Canon.tla (GoogleSafeBrowsing, Semantic)",
+     "For the experimental profiles the specification generates the domain and states the law; it does not predict the output. Known findings F03 (serializer) and F14 (skip-equals empty pair) are characterised by spec-evaluated predicates on the list stored in the first output.",
+     TB, "DESIGN.md section 4/C17")
+prop("C18", True, "model_checking",
+     "variation operators of spec/Canon.tla; TLC emits classes (abstract URL x all combinations of up to 2-3 variations); class equality evaluated by TLC on real outputs; for standard-normalised variations TLC also proves equality on the spec (StdClassInv)",
+     "Classes over seed-chosen word sets of the grammar; all profiles on standard-normalised classes, GoogleSafeBrowsing / Semantic / repeated-decoding profiles on the full variation list.",
+     TB, "DESIGN.md section 4/C18")
+
 NOT_YET = "check under construction in this session (see DESIGN.md section 4 for the planned decision procedure)"
 
 def main():
